@@ -134,6 +134,86 @@ func (c *c15) run() {
 	for h := 0; h < nh; h++ {
 		c.history(h)
 	}
+	nl := e.N(40, 600)
+	for l := 0; l < nl; l++ {
+		c.loop(l)
+	}
+}
+
+// loop: the same packets through the real processing loop (runProcessor) with a saturated slow-path
+// queue: whatever happens to the SCMP answers, nothing may be handed to a link that is down, and every
+// packet for a usable link is handed to exactly that link.
+func (c *c15) loop(idx int) {
+	r, e := c.r, c.e
+	bfd := map[uint16]bool{}
+	for _, id := range []uint16{ifP, ifC, ifC2, ifK, ifK2, ifPE, ifSC, ifSP, ifSK} {
+		bfd[id] = r.Chance(60)
+	}
+	a := stdAS(r, bfd) // sessions configured but never started: those links are down
+	tw := stdAS(vlib.NewRand(1), nil)
+	tw.key, tw.reuse = a.key, a.reuse
+	if err := a.build(3, time.Second, time.Second); err != nil {
+		panic(err)
+	}
+	if err := tw.build(3, 0, 0); err != nil {
+		panic(err)
+	}
+	n := r.Range(8, 30)
+	var pkts []router.VerifR2LoopPacket
+	wantSent := map[string]int{} // link key -> packets that must be handed to it
+	downPkts := 0
+	var desc []string
+	for k := 0; k < n; k++ {
+		kind := []int{0, 0, 0, 1, 1, 2, 3, 3, 4}[r.Intn(9)]
+		sc, hops := randScenario(a, r, kind, -1)
+		b := a.buildPath(r, sc, hops, nowSec()-uint32(r.Range(1, 100)))
+		raw := b.packet(r, nil, randHost(r), nil, 0, r.Bytes(r.Range(0, 20)))
+		if t := tw.dp.Process(raw, sc.via); t.Disp != router.VerifR2Forward || t.Egress != sc.egress {
+			continue
+		}
+		pkts = append(pkts, router.VerifR2LoopPacket{Raw: raw, Via: sc.via})
+		desc = append(desc, fmt.Sprintf("%d>%d", sc.via, sc.egress))
+		if a.linkHasBFD(sc.egress) {
+			downPkts++
+		} else {
+			wantSent[a.linkKey(sc.egress)]++
+		}
+	}
+	slowCap := r.Intn(3)
+	var sent map[uint16]int
+	var slow, pooled int
+	ans, ok := vlib.Safe(func() string {
+		sent, slow, pooled = a.dp.RunLoop(pkts, slowCap)
+		return "ok"
+	})
+	rep := map[string]any{"loop": idx, "config": a.modelCfg(), "packets via>egress": strings.Join(desc, " "), "slow_queue_capacity": slowCap,
+		"sent_by_interface": fmt.Sprint(sent), "queued_for_slow_path": slow, "returned_to_pool": pooled}
+	if !ok {
+		e.Violate("C15/loop-panic", ans, rep)
+		return
+	}
+	e.Case(fmt.Sprintf("loop:%d:%d:%d:%s", idx, slowCap, n, strings.Join(desc, " ")), fmt.Sprintf("loop/slowcap%d/down%v", slowCap, downPkts > 0), downPkts == 0)
+	gotSent := map[string]int{}
+	for id, cnt := range sent {
+		gotSent[a.linkKey(id)] += cnt
+		if a.linkHasBFD(id) {
+			e.Violate("C15/loop-forwarded-over-down-link",
+				fmt.Sprintf("the processing loop handed %d packet(s) to the link of interface %d whose BFD session is not up (slow-path queue full)", cnt, id), rep)
+		}
+	}
+	for k, w := range wantSent {
+		if gotSent[k] != w {
+			e.Violate("C15/loop-usable-link", fmt.Sprintf("link %s: %d packets handed over, %d expected", k, gotSent[k], w), rep)
+		}
+	}
+	wantSlow := downPkts
+	if wantSlow > slowCap {
+		wantSlow = slowCap
+	}
+	if slow != wantSlow || pooled != downPkts-wantSlow+1 {
+		e.Violate("C15/loop-accounting", fmt.Sprintf("packets for down links: %d queued for the slow path (want %d), %d returned to the pool (want %d incl. the end marker)",
+			slow, wantSlow, pooled, downPkts-wantSlow+1), rep)
+	}
 }
 
 func (c *c15) history(hidx int) {
